@@ -139,6 +139,12 @@ def failure_obligations(tier):
                       bounds=dict(W=2, T=2, R=1, K=1, failures="<=%d" % (mf + 1), max_failures=mf),
                       goals=("end", "failure", "failure-limit"),
                       split=(("dec_3", (0, 1, 2)),), budget_s=1200))
+    # wait_trial_completion_when_stopping=True: the limit is exceeded while another trial is still running and the loop goes on
+    # for several iterations before it ends -- the error must still be raised and name a failed trial
+    p = dict(W=2, T=2, R=1, K=1, max_fail=1, tuner_max_failures=0, wait=True, props=["C12"], crit="finished", crit_n=2, Z=0)
+    obs.append(Ob("C13.c[tuner,max_failures=0,wait_trial_completion]", "props.c01:h_loop", p,
+                  bounds=dict(W=2, T=2, R=1, K=1, failures="<=1", max_failures=0, wait_trial_completion_when_stopping=True),
+                  goals=("end", "failure", "failure-limit"), split=(("dec_3", (0, 1, 2)),), budget_s=1200))
     return obs
 
 
